@@ -203,13 +203,7 @@ func (r *c18Run) multiproof(txns []types.V2Transaction, tag string, replay any) 
 		pl := types.NewEncoder(&plain)
 		types.EncodeSlice(pl, orig)
 		pl.Flush()
-		noInputs := true
-		for _, t := range orig {
-			if len(t.SiacoinInputs)+len(t.SiafundInputs) > 0 {
-				noInputs = false // the codec model has no spend-policy codec in its environment
-			}
-		}
-		if plain.Len() <= 30000 && noInputs {
+		if plain.Len() <= 30000 {
 			var tl []string
 			types.VerifForEachElementLeaf(orig, func(l types.VerifElementLeaf) {
 				tl = append(tl, fmt.Sprintf("%d:%d", l.SE.LeafIndex, len(l.SE.MerkleProof)))
@@ -552,6 +546,10 @@ func runC18(c *fw.Ctx) {
 					lo := c.Rng.Intn(n)
 					hi := lo + 1 + c.Rng.Intn(n-lo)
 					r.multiproof(b.V2.Transactions[lo:hi], "subset", replay)
+				}
+				// relay scenarios (valid block and its duplicate-leaf variants)
+				if step%3 == 0 || c.Thorough() {
+					r.relayAll(cs, b, replay)
 				}
 				// outlines
 				txs := c18BlockTxs(b)
